@@ -1072,7 +1072,7 @@ REQUIRED_THEOREMS = REQUIRED_THEOREMS + [t for t in [
     'Cv.C01Review.solveSys_column_backward_error', 'Cv.C01Review.invertMatrix_column',
     'Cv.C01Review.rowToColMajor_eq_shape', 'Cv.C01Review.colToRowMajor_eq_shape',
     'Cv.C01Review.rowToColMajor_src', 'Cv.C01Review.colToRowMajor_src',
-    'Cv.C01Review.matrix_solveV_nonsquare', 'Cv.C11Lu.lu_correct'] if t not in REQUIRED_THEOREMS]
+    'Cv.C01Review.matrix_solveV_nonsquare', 'Cv.C11Lu.lu_correct', 'Cv.C11Lu.lu_correct_ordered'] if t not in REQUIRED_THEOREMS]
 NOT_PROVED = [
     "a bound on the growth factor of partial pivoting, hence the residual in the ||A||-form of the property: NOT proved. What IS proved, in the standard model and ONLY under the provisos of the next "
     "bullet: whatever solve returns satisfies (A+dA)x = b with |dA| <= gamma_(3n)|L||U| (LU route; norm-wise gamma_(3n) n ||U||) resp. gamma_(3n+1)|L||L^T| (Cholesky route), with residual corollaries; "
